@@ -44,6 +44,8 @@ def run(ctx):
     from . import c01, c03
     c01.run(dep(ctx, "C04", "C01"))
     c03.maps_rules(dep(ctx, "C04", "C03"), "C03")
+    for ctor_, adt_, roles_ in c03.POSMAP_OWNERS:          # the vector has the columns of the k that was asked for
+        c03.rule_posmap_ctor(dep(ctx, "C04", "C03"), "C03.H", ctor_, adt_, roles_)
     c03.canonical_min_rule(dep(ctx, "C04", "C03"), "C03.M")
     # "the row of a record holds the counts of THAT record": the batch writer keeps arrival order
     fb_ = ctx.view("composition::oligo::OligoComputer::vectorise_batch")
